@@ -1053,10 +1053,16 @@ event_reinit(struct event_base *base)
 		had_signal_added = 1;
 		base->sig.ev_signal_added = 0;
 	}
-	if (base->sig.ev_signal_pair[0] != -1)
+	if (base->sig.ev_signal_pair[0] != -1) {
 		EVUTIL_CLOSESOCKET(base->sig.ev_signal_pair[0]);
-	if (base->sig.ev_signal_pair[1] != -1)
+		/* forget the number: the backend's dealloc (evsig_dealloc_)
+		 * would otherwise close it a second time */
+		base->sig.ev_signal_pair[0] = -1;
+	}
+	if (base->sig.ev_signal_pair[1] != -1) {
 		EVUTIL_CLOSESOCKET(base->sig.ev_signal_pair[1]);
+		base->sig.ev_signal_pair[1] = -1;
+	}
 	if (base->th_notify_fn != NULL) {
 		was_notifiable = 1;
 		base->th_notify_fn = NULL;
